@@ -322,6 +322,96 @@ def rewrite_loop_values(src, lo, hi, edits, stats, types=None):
         stats["R9"] = stats.get("R9", 0) + 1
 
 
+def rewrite_timeouts(src, lo, hi, edits, stats):
+    """R18: timeout scopes made explicit so that the verifier sees what bounds a polling loop.
+         async { BODY }.timeout(T).await   =>   { __dl.enter(T); let __sv = { BODY }; __dl.exit(); __sv }
+         CALL.timeout(T).await             =>   __dl.scoped(T, CALL.await)
+         X.await   (every other await)     =>   X.await.__chk(&mut __dl)?
+       `__dl` is the function's one TimeoutScope (declared at function entry by the template, initially inactive).
+       `__chk` models the deadline test TimeoutFuture::poll makes whenever the task is resumed: inside an active scope it
+       either fails with Error::Timeout or lets strictly less time remain (assumption A-TIME-1: an await that suspends takes
+       positive time); outside a scope it does nothing.  A `?` inside BODY leaves the scope by returning from the function:
+       that equals the async block's own early exit only where the scope's value is returned / `?`-propagated unchanged, so
+       any other continuation is rejected (exit 2).  Nested scopes are rejected."""
+    toks = src.toks
+    i = lo
+    scopes = []
+    handled_awaits = set()
+    while i < hi:
+        t = toks[i]
+        if t.kind == "ident" and t.text == "timeout" and toks[i - 1].text == "." and toks[i + 1].text == "(":
+            ac = match_close(toks, i + 1)
+            if not (toks[ac + 1].text == "." and toks[ac + 2].text == "await"):
+                raise LostAnchor(f"{src.path}:{src.line_of(t.start)}: R18: .timeout(..) not directly awaited")
+            await_tok = ac + 2
+            arg = src.text[toks[i + 2].start:toks[ac - 1].end]
+            recv_end = i - 2      # token before the `.`
+            if toks[recv_end].text == "}":
+                # async block form: find matching `{` and the `async` before it
+                d = 0
+                j = recv_end
+                while j >= lo:
+                    if toks[j].text == "}":
+                        d += 1
+                    elif toks[j].text == "{":
+                        d -= 1
+                        if d == 0:
+                            break
+                    j -= 1
+                if j < lo + 1 or toks[j - 1].text != "async":
+                    raise LostAnchor(f"{src.path}:{src.line_of(t.start)}: R18: .timeout(..) on a block that is not `async {{..}}`")
+                # allowed continuations: tail / `?` / `.inspect_err(closure)?`
+                nxt = toks[await_tok + 1].text
+                ok = nxt in ("?", "}", ";")
+                if nxt == "." and toks[await_tok + 2].text == "inspect_err":
+                    cl = match_close(toks, await_tok + 3)
+                    ok = toks[cl + 1].text == "?"
+                if not ok:
+                    raise LostAnchor(f"{src.path}:{src.line_of(t.start)}: R18: value of a timeout scope used other than by return/`?`")
+                for (a, b) in scopes:
+                    if a < j < b or j < a < recv_end:
+                        raise LostAnchor(f"{src.path}:{src.line_of(t.start)}: R18: nested timeout scopes")
+                scopes.append((j, recv_end))
+                edits.add(toks[j - 1].start, toks[j].end, "{ __dl.enter(" + arg + "); let __sv = {", "R18", "timeout scope made explicit (enter)")
+                edits.add(toks[recv_end].end, toks[await_tok].end, "; __dl.exit(); __sv }", "R18", "timeout scope made explicit (exit)")
+            else:
+                # single awaited call under a timeout: find the start of the postfix chain (walk back over `.ident(..)`, `?`, paths)
+                j = recv_end
+                while True:
+                    if toks[j].text == ")" :
+                        d = 0
+                        while True:
+                            if toks[j].text == ")":
+                                d += 1
+                            elif toks[j].text == "(":
+                                d -= 1
+                                if d == 0:
+                                    break
+                            j -= 1
+                        j -= 1          # ident before `(`
+                        continue_chain = True
+                    elif toks[j].kind == "ident" or toks[j].text == "self":
+                        continue_chain = True
+                    else:
+                        raise LostAnchor(f"{src.path}:{src.line_of(t.start)}: R18: unsupported receiver of .timeout(..)")
+                    if toks[j - 1].text == "." or (toks[j - 1].text == ":" and toks[j - 2].text == ":"):
+                        j -= 2 if toks[j - 1].text == "." else 3
+                        continue
+                    break
+                edits.add(toks[j].start, toks[j].start, "__dl.scoped(" + arg + ", ", "R18", "single await under a timeout")
+                edits.add(toks[recv_end].end, toks[await_tok].end, ".await)", "R18", "")
+            handled_awaits.add(await_tok)
+            stats["R18"] = stats.get("R18", 0) + 1
+            i = await_tok + 1
+            continue
+        i += 1
+    for i in range(lo, hi):
+        t = toks[i]
+        if t.kind == "ident" and t.text == "await" and toks[i - 1].text == "." and i not in handled_awaits:
+            edits.add(t.end, t.end, ".__chk(&mut __dl)?", "R18", "deadline test after an await")
+            stats["R18"] = stats.get("R18", 0) + 1
+
+
 def rewrite_for_loops(src, lo, hi, edits, stats):
     """R4: `for PAT in EXPR { BODY }` over a non-range iterator =>
            `{ let mut __itK = EXPR; loop <spec> { match __itK.next() { Some(PAT) => { BODY } None => break, } } }`
@@ -505,6 +595,9 @@ def gen_fn(repo, d, body, report):
     # body
     body_rewrites(src, f["body_open"] + 1, f["body_close"], edits, subst, stats, opts)
     rewrite_loop_values(src, f["body_open"] + 1, f["body_close"], edits, stats, {k: v for k, v in d.items() if k.startswith("__brk")})
+    if d.get("timeouts") == "1":
+        rewrite_timeouts(src, f["body_open"] + 1, f["body_close"], edits, stats)
+        edits.add(bo.end, bo.end, " let mut __dl = TimeoutScope::none(); ", "R18", "the function's timeout scope object")
     loops = src.loops_in(f["body_open"] + 1, f["body_close"])
     n_loop_specs = 0
     for sub in subs:
